@@ -217,10 +217,82 @@ fn show(c: &Case) -> serde_json::Value {
         "sample_order": m.sample_perm, "width": c.t.width, "gzip": c.t.gzip})
 }
 
+// ---- many samples: the sample permutation on both sides of the serial / parallel build split ----
+
+#[derive(Clone, Debug, Serialize, Deserialize)]
+pub struct ManyCase {
+    pub k: usize,
+    pub rc: bool,
+    pub n: usize,
+    pub len: usize,
+    pub salt: usize,
+    /// sort keys for the sample permutation (cyclic)
+    pub perm: Vec<u16>,
+    pub threads_a: usize,
+    pub threads_b: usize,
+}
+
+fn many_strategy() -> BoxedStrategy<ManyCase> {
+    (
+        prop::sample::select(vec![7usize, 9, 15, 21, 31, 33, 41]),
+        prop::bool::weighted(0.7),
+        prop::sample::select(vec![11usize, 20, 23, 40, 45, 69, 70, 72, 90, 150, 161]),
+        0usize..40,
+        0usize..1000,
+        proptest::collection::vec(any::<u16>(), 2..9),
+        prop::sample::select(vec![1usize, 1, 2, 8]),
+        prop::sample::select(vec![1usize, 2, 4, 8, 16]),
+    )
+        .prop_map(|(k, rc, n, extra, salt, perm, threads_a, threads_b)| ManyCase { k, rc, n, len: k + 8 + extra, salt, perm, threads_a, threads_b })
+        .boxed()
+}
+
+fn check_many(c: &ManyCase, ctx: &Ctx) -> Outcome {
+    let base = gen::filler(c.len, c.salt);
+    // sample i: the common sequence with one substitution, at a position and to a base that depend on i
+    let samples: Vec<Sample> = (0..c.n)
+        .map(|i| {
+            let mut s = base.clone();
+            let p = (i * 7 + c.salt) % s.len();
+            s[p] = model::BASES[(model::BASES.iter().position(|b| *b == s[p]).unwrap() + 1 + i % 3) % 4];
+            (format!("m{}_{i}", (i * 3) % 10), vec![s])
+        })
+        .collect();
+    let perm = perm_from_keys(&c.perm, c.n);
+    let permuted: Vec<Sample> = perm.iter().map(|i| samples[*i].clone()).collect();
+    let dir = ctx.case_dir();
+    let mut tabs = Vec::new();
+    for (tag, set, threads) in [("a", &samples, c.threads_a), ("b", &permuted, c.threads_b)] {
+        let o = build(ctx, &dir, tag, set, c.k, c.rc, threads);
+        if let Err(e) = must_ok(&o, &format!("build of {} samples with {threads} threads", c.n)) {
+            return e;
+        }
+        match nk(ctx, &dir, &format!("{tag}.skf")) {
+            Ok(x) => tabs.push(x),
+            Err(e) => return e,
+        }
+    }
+    ctx.done(&dir);
+    let (_, exp_a) = model_table(&samples, c.k, c.rc);
+    let (_, exp_b) = model_table(&permuted, c.k, c.rc);
+    for (nkx, exp, what) in [(&tabs[0], &exp_a, "listed order"), (&tabs[1], &exp_b, "permuted order")] {
+        if let Err(e) = model::compare_nk(nkx, exp, c.k, c.rc, None) {
+            return Outcome::Fail(format!("{} samples, k={} rc={} threads {}/{} ({what}): {e}", c.n, c.k, c.rc, c.threads_a, c.threads_b));
+        }
+    }
+    let mut cl = vec![];
+    if c.n >= 70 && c.threads_b >= 8 { cl.push("merge_depth>=3"); }
+    if c.threads_b > 1 && c.n >= 10 * c.threads_b { cl.push("parallel_build"); }
+    pass(perm.iter().enumerate().any(|(a, b)| a != *b), key_of(&(c.k, c.rc, c.n, c.len, c.salt, &perm, c.threads_a, c.threads_b)), cl)
+}
+
+const MANY_RULE: &str = "generated: 11-161 one-record samples (a common sequence of k+8..k+47 bases with one sample-specific substitution each), built once in listed order and once in a generated permutation, with thread counts from {1,2,8} and {1,2,4,8,16} (both sides of the 10-samples-per-thread rule and merge depths 1-4), k in {7,9,15,21,31,33,41}, both strand modes. Oracle: each table equals the string model's table for that sample order (so the permutation only permutes the columns). Non-trivial: the permutation is not the identity.";
+
 fn stages(tier: Tier) -> Vec<Box<dyn Stage>> {
     vec![
         gen_stage_show("inproc", RULE, tier.pick(16_000, 300_000), 800, case_strategy, |c, ctx| check(c, ctx, if c.k <= 31 && c.samples.len() % 2 == 0 { Route::InProc64 } else { Route::InProc128 }), show),
         gen_stage_show("cli", RULE, tier.pick(1600, 24_000), 200, case_strategy, |c, ctx| check(c, ctx, Route::Cli), show),
+        gen_stage_show("many_samples", MANY_RULE, tier.pick(96, 1600), 20, many_strategy, check_many, |c| serde_json::to_value(c).unwrap()),
     ]
 }
 
